@@ -336,6 +336,12 @@ def run(ctx, out, tier):
     # ---------------------------------------------------------------- shared
     shared.sh_err(ctx, out, ctx.validator_bodies(name), rule="SH.err", floor=8)
     shared.sh_state(ctx, out, name)
+    shared.sh_visit(ctx, out, name)
+    # the validator's diagnostics survive the merge with other validators' (append-only), and the
+    # attribute text reaches it unmodified (comment delimiters are blanked exactly once)
+    shared.sh_merge(ctx, out, ctx.reachable_bodies())
+    from rules.C03 import check_blank
+    check_blank(ctx, out)
     return meta()
 
 
